@@ -60,7 +60,7 @@ def fresh_twin(p):
 
 
 def run(tier):
-    return sc.run_family(PID, tier, RULE, select, want=want, cap=dict(quick=400, thorough=4000), transform=fresh_twin)
+    return sc.run_family(PID, tier, RULE, select, want=want, cap=dict(quick=400, thorough=2000), transform=fresh_twin)
 
 
 def replay(path):
